@@ -438,7 +438,7 @@ def ini_reference(m, eq="="):
         key = k.strip().upper()
         val = ini_typed(str(v))
         if key.endswith("+"):
-            key = key[:-1]
+            key = key[:-1].rstrip()
             val = "%s%s" % (out[key], val) if key in out else "\x16%s" % (val,)
         out[key] = val
     return out
@@ -715,7 +715,7 @@ def ini_lines_reference(lines, eq="="):
         k, v = s.split(eq, 1) if eq and eq in s else (s, "")
         key, val = k.strip().upper(), ini_typed(v)
         if key.endswith("+"):
-            key = key[:-1]
+            key = key[:-1].rstrip()  # the key is a stripped name (fix C17-g)
             val = "%s%s" % (out[key], val) if key in out else "\x16%s" % (val,)
         out[key] = val
     return out
